@@ -414,7 +414,7 @@ class SoftAlignment(Alignment):
 
         for i, unitary_align in enumerate(self):
             for annotator, unit in unitary_align.n_tuple:
-                if unit is not None:
+                if unit is not None and unit in unit_occurences.get(annotator, ()):
                     unit_occurences[annotator][unit] += 1
 
         for annotator, factors in unit_occurences.items():
